@@ -18,7 +18,7 @@ META = {
     ),
     "C02": dict(
         technique="escape analysis of the per-entry loop, exhaustive 128-row decision table extracted from loop-body paths, sibling writer/reader agreement, stdout taint, static import closure; custom rules",
-        text="Shows that nothing a junk entry contains can abort or veto verification: the per-entry loop has an empty escape set for an unconstrained key/value, its decision function counts every entry the specification counts and skips or counts the others without leaving the loop (all 128 atom valuations), the only post-loop rejection is len(counted) < threshold exactly, signer and verifier agree on serializer/field/codec/filing, printed text is ASCII-safe, and every module chain is in the static import closure.",
+        text="Shows that nothing a junk entry contains can abort or veto verification: the per-entry loop has an empty escape set for an unconstrained key/value, its decision function counts every entry the specification counts and skips or counts the others without leaving the loop (all 128 atom valuations), the only post-loop rejection is len(counted) < threshold exactly, the pre-loop argument checks demand no more of the authorized-key list than 'a list of hex keys', signer and verifier agree on serializer/field/codec/filing, printed text is ASCII-safe, and every module chain is in the static import closure.",
         note="Not decided: that an arbitrary conforming signer's bytes verify and that the shipped fixtures verify (crypto library, needs execution). An extra pre-loop rejection that can never coincide with sufficient signatures would still be reported.",
         ref="5 C02",
     ),
@@ -30,19 +30,19 @@ META = {
     ),
     "C05": dict(
         technique="path enumeration of verify_delegation, dominance of the membership guard, access-path matching of the verify_signable call; custom rules",
-        text="Every accepting path of verify_delegation validated the trusted side, established delegation_name in trusted.signed.delegations (else UnknownRoleError) and called verify_signable on the untrusted parameter with pubkeys/threshold read from trusted.signed.delegations[<delegation_name parameter>] and the caller's gpg flag; explicit rejections are negations of these clauses.",
+        text="Every accepting path of verify_delegation validated the trusted side, established delegation_name in trusted.signed.delegations (else UnknownRoleError) and called verify_signable on the untrusted parameter with pubkeys/threshold read from trusted.signed.delegations[<delegation_name parameter>] and the caller's gpg flag; explicit rejections are negations of these clauses; the schema checker that defines 'well-formed trusted metadata' is the documented schema and nothing stricter (C14's rules re-run).",
         note="Relies on C01/C02 for what verify_signable itself guarantees.",
         ref="5 C05",
     ),
     "C06": dict(
         technique="information-flow (taint) of raise conditions into the discriminating exception handler; must-evaluate rule for the type comparison; re-use of the C02 decision table",
-        text="Shows that whether the type-vs-role comparison runs cannot depend on anything under untrusted['signatures']: the raise conditions of every exception the discriminating handler catches are propagated through callee summaries into the caller's access paths and must not mention an element of the signature map (this is exactly defect D2); on every accepting path where the signed part is well-formed delegating metadata the comparison was evaluated against the signed type.",
+        text="Shows that whether the type-vs-role comparison runs cannot depend on anything under untrusted['signatures']: the raise conditions of every exception the discriminating handler catches are propagated through callee summaries into the caller's access paths and must not mention an element of the signature map (this is exactly defect D2); on every accepting path where the signed part is well-formed delegating metadata the comparison was evaluated against the signed type; at every call of a verifier the signature mode is not computed from the envelope's unsigned signature map.",
         note="Monotonicity under removal of non-counting entries additionally relies on the C02 decision table, re-evaluated here.",
         ref="5 C06",
     ),
     "C04": dict(
         technique="reduction to statically decided facts (C03 step rule + effect/statelessness analysis + writer/loader pairing) with a paper induction over histories",
-        text="The history property is reduced to four facts, each decided on the current tree by static analysis: the per-step rule of C03; statelessness of the library (no module/class/function state written, no caches, no mutable defaults, no ambient reads reachable from verifiers); verifiers never write their arguments (the trusted root in particular); files are written as canonserialize(x) and read back by plain json.load; any loop of the repository around verify_root pairs each offer with the root accepted just before it. The induction over offer sequences on top of these facts is a written argument in DESIGN.md, not executed.",
+        text="The history property is reduced to four facts, each decided on the current tree by static analysis: the per-step rule of C03; statelessness of the library (no module/class/function state written, no caches, no mutable defaults, no ambient reads reachable from verifiers); verifiers never write their arguments (the trusted root in particular); files are written as canonserialize(x) and read back by plain json.load; any loop of the repository around verify_root pairs each offer with the root accepted just before it; the verify-metadata command's status is the library's verdict on the files it was given (C17's rules re-run). The induction over offer sequences on top of these facts is a written argument in DESIGN.md, not executed.",
         note="The induction is a paper argument; equality of the reloaded JSON value is a json-library fact (assumed).",
         ref="5 C04",
     ),
@@ -54,13 +54,13 @@ META = {
     ),
     "C12": dict(
         technique="interprocedural effect analysis (parameter write sets, module-state writes, caching constructs, ambient reads) over walker events + static import closure + stdout taint; fixture-backed zero-count rules",
-        text="For all 29 validators/verifiers, the serializer, serialize_and_sign, wrap_as_signable and the key helpers the interprocedural write set on parameters is empty; no library function writes module/class/function state or mutates a module constant; no caching decorator or mutable default; no clock/environment/randomness/filesystem read is reachable from a verifier; module chains are inside the static import closure; printed text is ASCII-safe; wrapping deep-copies. Thread-safety and order-independence follow from the absence of shared mutable state.",
+        text="For all 29 validators/verifiers, the serializer, serialize_and_sign, wrap_as_signable and the key helpers the interprocedural write set on parameters is empty; no library function writes module/class/function state or mutates a module constant; no caching decorator or mutable default; no clock/environment/randomness/filesystem/warnings-filter/hash-seed-order read is reachable from a verifier; module chains are inside the static import closure; printed text is ASCII-safe; wrapping deep-copies. Thread-safety and order-independence follow from the absence of shared mutable state.",
         note="Aliasing through objects with adversarial dunder methods is excluded (A3). Each zero-count detector is shown to fire on /verif/fixtures/purity on every run.",
         ref="5 C12",
     ),
     "C17": dict(
         technique="path enumeration of the CLI handlers with call-event/fact matching, argparse registry extraction, entry-point statement dataflow (value of cli() must reach sys.exit), call-graph cone for signing handlers",
-        text="Every path of the verify-metadata handler that can yield exit status 0 follows a successful verify_root / verify_delegation call chosen by the untrusted file's declared type, with the files bound as the parser declares them; all other returns are non-zero constants; cli() passes the handler's value through; each of the three entry points feeds it to sys.exit; signing handlers return a zero status only after the signer returned; module-level names the handlers read are bound before the __main__ block of cli.py runs.",
+        text="Every path of the verify-metadata handler that can yield exit status 0 follows a successful verify_root / verify_delegation call chosen by the untrusted file's declared type, with the files bound as the parser declares them; all other returns are non-zero constants; cli() passes the handler's value through; each of the three entry points feeds it to sys.exit; signing handlers return a zero status only after the signer returned; no exception escapes a handler after the library has accepted; module-level names the handlers read are bound before the __main__ block of cli.py runs.",
         note="The installer-generated console-script wrapper is assumed to be sys.exit(cli()) (A7; cross-checked against /venv/bin in the thorough tier). What is printed is not checked, only the status.",
         ref="5 C17",
     ),
@@ -78,7 +78,7 @@ META = {
     ),
     "C09": dict(
         technique="term-level matching of the wrap return value, the single store of sign_signable (target, value, ordering after the grammar check), interprocedural write set, sibling writer/reader agreement, exact accept gate",
-        text="wrap_as_signable returns a fresh two-field dict with a deep copy under a JSON-type gate; sign_signable performs exactly one store, under hex(raw public key of the given private key), of {'signature': hex(sign(canonserialize(signable['signed'])))}, after the entry passed the grammar, and writes nothing else (so other signers' entries are untouched and order cannot matter); it fails only through validation of its arguments or a step of the signing pipeline; signer and verifier agree on serializer/field/codec/filing; the accept gate is exactly len(counted) >= threshold.",
+        text="wrap_as_signable returns a fresh two-field dict with a deep copy under a JSON-type gate; sign_signable performs exactly one store, under hex(raw public key of the given private key), of {'signature': hex(sign(canonserialize(signable['signed'])))}, after the entry passed the grammar, and writes nothing else (so other signers' entries are untouched and order cannot matter); it fails only through validation of its arguments or a step of the signing pipeline; signer and verifier agree on serializer/field/codec/filing; the accept gate is exactly len(counted) >= threshold and the verifier's argument checks reject nothing the signer can produce (C02's rules re-run).",
         note="Partial: determinism/idempotence of Ed25519 and 'a changed payload stops verifying' are crypto-library facts (A2).",
         ref="5 C09",
     ),
@@ -90,7 +90,7 @@ META = {
     ),
     "C10": dict(
         technique="term-sequence normalisation of the bytes fed to the hash object (concatenation flattening, BE32/hex codec normal forms) compared with the RFC 4880 v4 trailer written as a term list; event matching for verify; transcription store/del matching",
-        text="On every accepting path of verify_gpg_signature the hash is SHA-256 over exactly data || unhex(other_headers) || 04 ff || be32(len(unhex(other_headers))), and acceptance is from_public_bytes(unhex(key_value)).verify(unhex(signature['signature']), digest) behind the entry/key/data format gates, with InvalidSignature propagating; module chains are in the import closure; the GPG signing path returns the signer's dict minus keyid (optionally see_also := keyid), signs canonserialize(signed) and files the entry under the raw key value q of the same fingerprint.",
+        text="On every accepting path of verify_gpg_signature the hash is SHA-256 over exactly data || unhex(other_headers) || 04 ff || be32(len(unhex(other_headers))), and acceptance is from_public_bytes(unhex(key_value)).verify(unhex(signature['signature']), digest) behind the entry/key/data format gates, with InvalidSignature propagating; the verifier writes none of its arguments; module chains are in the import closure; the GPG signing path returns the signer's dict minus keyid (optionally see_also := keyid), signs canonserialize(signed) and files the entry under the raw key value q of the same fingerprint.",
         note="Partial: what real GnuPG / securesystemslib emit cannot be examined (neither is installed); transcription is checked assuming the signer returns {keyid, other_headers, signature}. Crypto soundness assumed (A2); lengths < 2**32 (A5).",
         ref="5 C10",
     ),
@@ -108,7 +108,7 @@ META = {
     ),
     "C16": dict(
         technique="return-term shape and provenance matching, per-field grammar facts on the returning path, must-call argument matching for the root wrapper, constant folding of default distances, term shape of the timestamp helper",
-        text="build_delegating_metadata returns exactly the six fields with the arguments (or defaults) verbatim and the spec-version constant, each placed value having been validated against the same field->grammar table the checker is verified against (C14); build_root_metadata passes 'root' and a display with root and key_mgr delegations built from its arguments and returns the result unmodified; default expiry = now + 365 days, default timestamp = now + 0, produced as (utcnow().replace(microsecond=0)+delta).isoformat()+'Z'.",
+        text="build_delegating_metadata returns exactly the six fields with the arguments (or defaults) verbatim and the spec-version constant, each placed value having been validated against the same field->grammar table the checker is verified against (C14); build_root_metadata passes 'root' and a display with root and key_mgr delegations built from its arguments and returns the result unmodified; default expiry = now + 365 days, default timestamp = now + 0, produced as (utcnow().replace(microsecond=0)+delta).isoformat()+'Z'; for unconstrained arguments the builders' escape set is within {TypeError, ValueError}.",
         note="'Strictly after its timestamp' for two separate clock reads is a wall-clock relation and is not decided. Acceptance by the verifier after signing relies on C01-C03.",
         ref="5 C16",
     ),
